@@ -18,6 +18,7 @@ import (
 
 	"github.com/pdfcpu/pdfcpu/pkg/api"
 	"github.com/pdfcpu/pdfcpu/pkg/pdfcpu/fault"
+	"verif/harness/internal/cliprop"
 	"verif/harness/internal/fileprop"
 	"verif/harness/internal/fsx"
 	"verif/harness/internal/opcat"
@@ -26,11 +27,19 @@ import (
 )
 
 type item struct {
-	op opcat.Op
-	sc fileprop.Scenario
+	op  opcat.Op
+	sc  fileprop.Scenario
+	cli *cliprop.Item // set for the pkg/cli command forms (op, sc are then derived from it)
 }
 
 func scGroup(sc fileprop.Scenario) string {
+	if s := string(sc); strings.Contains(s, "/") || strings.HasPrefix(s, "stdin-") || strings.HasPrefix(s, "file-") {
+		// pkg/cli scenarios "<shape>[/<destination kind>]": the mode variants of an existing destination share one key
+		if i := strings.Index(s, "/existing-"); i >= 0 {
+			return s[:i] + "/existing"
+		}
+		return s
+	}
 	switch sc {
 	case fileprop.InPlace:
 		return "inplace"
@@ -105,23 +114,54 @@ func main() {
 	})
 }
 
-func items() []item {
+// cliItems: the pkg/cli command forms, driven in-process (internal/cliprop): "cmd - out" onto a new file,
+// an existing file (0600/0644/0664), a symlink to a regular file, a hard-linked file, the stdin source
+// itself, a missing directory; "cmd in -" and "cmd - -" (no output file: inputs and $TMPDIR only);
+// "cmd - outDir"; "cmd -" listings; and the plain file forms of a representative subset.
+// quick: per form 2 of the "cmd - out" destination kinds, 1 directory form, 1 plain file form, and for every
+// other form 1 stdout form (rotating with the seed, so every kind is reached by many forms); thorough: all.
+func cliItems(t *vk.T) []item {
+	all := cliprop.All()
+	if t.Quick() {
+		off := t.RNG("cli-rotation").IntN(840)
+		all = cliprop.Sample(all, off, func(class string, formIndex int) int {
+			switch class {
+			case string(cliprop.StdinFile):
+				return 2
+			case "stdout": // no output file is involved: every other form
+				if (formIndex+off)%2 != 0 {
+					return 0
+				}
+			}
+			return 1
+		})
+	}
 	var its []item
-	for _, op := range opcat.All() {
-		for _, sc := range fileprop.Scenarios(op) {
-			its = append(its, item{op, sc})
-		}
+	for i := range all {
+		it := all[i]
+		its = append(its, item{op: opcat.Op{Name: it.OpName()}, sc: it.Scenario(), cli: &it})
 	}
 	return its
 }
 
+func items(t *vk.T) []item {
+	var its []item
+	for _, op := range opcat.All() {
+		for _, sc := range fileprop.Scenarios(op) {
+			its = append(its, item{op: op, sc: sc})
+		}
+	}
+	return append(its, cliItems(t)...)
+}
+
 func parent(t *vk.T) {
-	t.Rule("case = (operation, path scenario, fault kind, index k of the faulted filesystem call); every case re-runs the real API call with one injected fault (EIO at call k; short write+ENOSPC; plain panic; fault.Panic) and compares the sandbox tree with the pristine tree; non-trivial = the fault was actually reached and the operation failed or panicked; distinct by (op, scenario, kind, k)")
+	t.Rule("case = (operation, path scenario, fault kind, index k of the faulted filesystem call); every case re-runs the real API call with one injected fault (EIO at call k; short write+ENOSPC; plain panic; fault.Panic) and compares the sandbox tree with the pristine tree; non-trivial = the fault was actually reached and the operation failed or panicked; distinct by (op, scenario, kind, k). Operations: the pkg/api + pkg/pdfcpu catalogue, and the pkg/cli command forms built as cmd/pdfcpu builds them (cli.XCommand, cli.Dispatch, which turns a panic into an error) and run in-process with os.Stdin / os.Stdout pointed at sandbox files and $TMPDIR inside the sandbox, so that reads of stdin, the spooled copy of stdin, writes to stdout and the CLI's own output staging are fault points")
 	t.Assume("single faults only; faults are injected at package-os calls on paths under the sandbox (fonts/config reads elsewhere are out of scope)")
 	t.Assume("panics are injected at read and write calls only (they stand for a panic anywhere in pdfcpu's processing between two data-moving calls); a panic inside the staging protocol's own metadata calls (open, stat, chmod, close, rename, remove) is not modelled")
 	t.Assume("pdfcpu.CopyFile is io.Copy between two files: no panic is injected there (no pdfcpu processing code runs between its reads and writes)")
 	t.Assume("excuse: when the injected fault is on the remove of path P itself, P may remain if the returned error names P")
 	t.Assume("multi-output operations: completed earlier outputs that remain after a later failure are reported per operation (class earlier-outputs-kept); partial files, staging leftovers and damaged inputs are violations of their own class")
+	t.Assume("pkg/cli forms: the file that plays stdout is not a file to protect (its content is not judged); a spooled copy of stdin left in $TMPDIR after a failure is counted (tmpdir_temp_left/<fault>), not judged: the property speaks of the output directory; the target of a symlinked destination and the other name of a hard-linked destination are judged like the destination")
 	fx := filepath.Join(t.Scratch(), "fx")
 	if err := os.MkdirAll(fx, 0o755); err != nil {
 		t.Broken("%v", err)
@@ -133,7 +173,10 @@ func parent(t *vk.T) {
 		t.Extra("api_file_functions_not_driven", unc)
 	}
 	t.Extra("operations", len(opcat.All()))
-	t.Extra("op_scenarios", len(items()))
+	t.Extra("op_scenarios", len(items(t)))
+	t.Extra("cli_forms", len(cliprop.Forms()))
+	t.Extra("cli_op_scenarios", len(cliItems(t)))
+	t.Extra("cli_not_driven", cliprop.NotDriven)
 	t.RunShards(16, "VERIF_FX="+fx)
 	if t.Counter("ops_reached") == 0 {
 		t.Broken("no operation was driven")
@@ -144,13 +187,13 @@ func shard(t *vk.T) {
 	fx := os.Getenv("VERIF_FX")
 	si, sn := t.Shard()
 	root := filepath.Join(t.Scratch(), "sb")
-	its := items()
+	its := items(t)
 	only := os.Getenv("VERIF_ONLY_OP")
 	for idx, it := range its {
 		if idx%sn != si {
 			continue
 		}
-		if only != "" && !strings.Contains(it.op.Name, only) {
+		if only != "" && !strings.Contains(it.op.Name+"/"+string(it.sc), only) {
 			continue
 		}
 		runItem(t, fx, root, idx, it)
@@ -159,10 +202,20 @@ func shard(t *vk.T) {
 
 func runItem(t *vk.T, fx, root string, idx int, it item) {
 	name := it.op.Name + "/" + string(it.sc)
-	c, err := fileprop.Build(fx, root, it.op, it.sc)
+	var c *fileprop.Case
+	var err error
+	if it.cli != nil {
+		c, err = cliprop.Build(fx, root, *it.cli)
+	} else {
+		c, err = fileprop.Build(fx, root, it.op, it.sc)
+	}
 	if err != nil {
 		t.Inconclusive("case-build-failed/" + name + ": " + err.Error())
 		return
+	}
+	if it.cli != nil {
+		t.Count("cli_ops_reached", 1)
+		t.Count("cli_scenario/"+it.cli.ScGroup(), 1)
 	}
 	// traced fault-free run
 	m := &osmon.Mon{Scope: root, Record: true}
@@ -187,8 +240,18 @@ func runItem(t *vk.T, fx, root string, idx int, it item) {
 	rng := t.RNGi("k/"+name, 0)
 	var specs []faultSpec
 	for k := int64(1); k <= M; k++ {
-		if t.Quick() && M > 12 && k > 2 && k <= M-4 && rng.IntN(3) != 0 {
-			continue
+		middle := false
+		if it.cli == nil {
+			if t.Quick() && M > 12 && k > 2 && k <= M-4 && rng.IntN(3) != 0 {
+				continue
+			}
+		} else if t.Quick() && M > 24 && k > 8 && k <= M-9 {
+			// pkg/cli stream forms: calls 1..8 spool stdin and stage the output, the last 9 write, close,
+			// remove and publish; in between lie the (many, alike) reads of the spooled copy
+			middle = true
+			if rng.IntN(4) != 0 {
+				continue
+			}
 		}
 		e := evs[k-1]
 		if e.Depth > 0 {
@@ -200,7 +263,14 @@ func runItem(t *vk.T, fx, root string, idx int, it item) {
 			specs = append(specs, faultSpec{k, "short"})
 		}
 		if panicAllowedAt(e.Op) && !bareCopy(it.op.Name) {
-			specs = append(specs, faultSpec{k, "panic"}, faultSpec{k, "faultpanic"})
+			switch {
+			case !middle:
+				specs = append(specs, faultSpec{k, "panic"}, faultSpec{k, "faultpanic"})
+			case rng.IntN(2) == 0:
+				specs = append(specs, faultSpec{k, "panic"})
+			default:
+				specs = append(specs, faultSpec{k, "faultpanic"})
+			}
 		}
 	}
 	sampled := false
@@ -285,10 +355,38 @@ func judge(t *vk.T, c *fileprop.Case, fs faultSpec, ev *osmon.Event, ferr error,
 		t.Violate(base+"/class="+class, fmt.Sprintf("%s %s: fault %s at fs call %d (%s); returned error %q panic %q; tree: %s",
 			c.Op.Name, c.Sc, fs.kind, fs.k, rp.Call, rp.Err, rp.Panic, strings.Join(rp.Changes, "; ")), rp)
 	}
+	// pkg/cli cases: the stdout file is not judged; entries left in $TMPDIR are counted
+	scoped := func(chs []fsx.Change) []fsx.Change {
+		if len(c.Unjudged) == 0 && c.TmpDir == "" {
+			return chs
+		}
+		var out []fsx.Change
+		for _, ch := range chs {
+			if inList(c.Unjudged, ch.Path) {
+				continue
+			}
+			if c.TmpDir != "" && strings.HasPrefix(ch.Path, c.TmpDir+"/") {
+				t.Count("tmpdir_temp_left/"+fs.kind, 1)
+				if os.Getenv("VERIF_DEBUG") != "" {
+					call := ""
+					if ev != nil {
+						call = ev.Op + " " + rel(c.Root, ev.Path)
+					}
+					if f, err := os.OpenFile(os.Getenv("VERIF_DEBUG"), os.O_APPEND|os.O_CREATE|os.O_WRONLY, 0o644); err == nil {
+						fmt.Fprintf(f, "tmpdir-left %s %s fault=%s k=%d call=%q err=%q: %s\n", c.Op.Name, c.Sc, fs.kind, fs.k, call, errStr(ferr), ch.String())
+						f.Close()
+					}
+				}
+				continue
+			}
+			out = append(out, ch)
+		}
+		return out
+	}
 	if ferr == nil && fpv == nil {
 		// success despite the fault: names and modes must be those of a fault-free success, inputs unchanged
 		var bad []fsx.Change
-		for _, ch := range fsx.Diff(c.Success, after) {
+		for _, ch := range scoped(fsx.Diff(c.Success, after)) {
 			if ch.Kind == "content" && inList(c.Dest, ch.Path) {
 				continue // fresh /ID and dates
 			}
@@ -316,7 +414,7 @@ func judge(t *vk.T, c *fileprop.Case, fs faultSpec, ev *osmon.Event, ferr error,
 		}
 		return
 	}
-	changes := fsx.Diff(c.Pristine, after)
+	changes := scoped(fsx.Diff(c.Pristine, after))
 	if len(changes) == 0 {
 		return
 	}
@@ -345,7 +443,7 @@ func judge(t *vk.T, c *fileprop.Case, fs faultSpec, ev *osmon.Event, ferr error,
 			byClass["new-output-left"] = append(byClass["new-output-left"], ch)
 		case inList(c.Inputs, ch.Path):
 			byClass["input-damaged"] = append(byClass["input-damaged"], ch)
-		case inList(c.Dest, ch.Path):
+		case inList(c.Dest, ch.Path) || inList(c.Aux, ch.Path):
 			if c.Op.Kind == opcat.DirOut && ch.Kind == "content" && completeOutput(c, ch.Path, after) {
 				byClass["earlier-outputs-replaced"] = append(byClass["earlier-outputs-replaced"], ch)
 				continue
